@@ -73,9 +73,13 @@ impl FailDesc {
 // Storage corruption of the first byte of a call's name token: the call fails
 // with an undefined name the first time it is evaluated.  Returns None when the
 // offset is not a call token, Some(None) when the call is never evaluated.
+pub fn is_op_node(w2: &W2Prog, n: usize) -> bool {
+    w2.site.get(n).map(|s| s.starts_with("operator:")).unwrap_or(false)
+}
+
 pub fn locate_name_fault(w2: &W2Prog, off: u64) -> Option<Option<FailDesc>> {
     // `mk()()`: outer and inner call share the first token; the inner callee is looked up
-    let node = w2.tok_off.iter().rposition(|o| *o == Some(off))?;
+    let node = (0..w2.tok_off.len()).rev().find(|n| w2.tok_off[*n] == Some(off) && !is_op_node(w2, *n))?;
     if let Some(ev) = w2.events.iter().find(|e| e.node == node) {
         return Some(Some(FailDesc::from_print(ev)));
     }
@@ -85,8 +89,47 @@ pub fn locate_name_fault(w2: &W2Prog, off: u64) -> Option<Option<FailDesc>> {
     Some(None)
 }
 
+// Storage corruption of a `+` between two strings or two lists into `-`: the
+// operator fails with a type error the first time it is evaluated (both
+// operands are evaluated first).  None = not an operator token, Some(None) =
+// never evaluated.
+pub fn locate_op_fault(w2: &W2Prog, off: u64) -> Option<Option<FailDesc>> {
+    let node = (0..w2.tok_off.len()).find(|n| w2.tok_off[*n] == Some(off) && is_op_node(w2, *n))?;
+    Some(w2.ops.iter().find(|e| e.node == node).map(FailDesc::from_call))
+}
+
+pub fn op_flip_item(rng: &mut Rng, w2: &W2Prog) -> Option<Item> {
+    let cands: Vec<u64> = (0..w2.tok_off.len())
+        .filter(|n| matches!(w2.site[*n].as_str(), "operator:string" | "operator:list"))
+        .filter_map(|n| w2.tok_off[n])
+        .collect();
+    if cands.is_empty() {
+        return None;
+    }
+    Some(Item::Flip { off: cands[rng.usize_below(cands.len())], bytes: b"-".to_vec() })
+}
+
+// Storage corruption of an inter-token space outside every bracket into `,`:
+// a token that is never legal there, i.e. a syntax error at exactly that byte.
+pub fn comma_flip_item(rng: &mut Rng, w2: &W2Prog) -> Option<Item> {
+    let cands: Vec<u64> = w2.spaces.iter().filter(|s| s.stmt_level).map(|s| s.off).collect();
+    if cands.is_empty() {
+        return None;
+    }
+    Some(Item::Flip { off: cands[rng.usize_below(cands.len())], bytes: b",".to_vec() })
+}
+
+// one of the three storage-corruption failure origins
+pub fn flip_item(rng: &mut Rng, w2: &W2Prog) -> Option<Item> {
+    match rng.below(10) {
+        0..=4 => name_flip_item(rng, w2),
+        5..=7 => op_flip_item(rng, w2).or_else(|| name_flip_item(rng, w2)),
+        _ => comma_flip_item(rng, w2),
+    }
+}
+
 pub fn name_flip_item(rng: &mut Rng, w2: &W2Prog) -> Option<Item> {
-    let cands: Vec<u64> = w2.tok_off.iter().filter_map(|o| *o).collect();
+    let cands: Vec<u64> = (0..w2.tok_off.len()).filter(|n| !is_op_node(w2, *n)).filter_map(|n| w2.tok_off[n]).collect();
     if cands.is_empty() {
         return None;
     }
@@ -192,9 +235,9 @@ impl Property for C17 {
             let reference = ctx.reference(worker, &p.program);
             let mut plan = gen_sink_plan(rng, &reference);
             if rng.chance(1, 4) {
-                // storage corruption of a call's name instead of a sink fault
+                // storage corruption (call name / operator / stray comma) instead of a sink fault
                 let w2p = crate::w2::build(&p.aux);
-                if let Some(it) = name_flip_item(rng, &w2p) {
+                if let Some(it) = flip_item(rng, &w2p) {
                     plan = Plan::new();
                     plan.items.push(it);
                     if rng.chance(1, 3) {
@@ -429,9 +472,76 @@ fn check_w2(ctx: &Ctx, worker: usize, case: &Case) -> Outcome {
     out.fired = oracle::fired_kinds(&case.plan, &r);
     let clause = "a failure inside print is one located diagnostic with the active call chain, after the output so far, exit 103";
 
-    let flip = case.plan.items.iter().find_map(|i| if let Item::Flip { off, .. } = i { Some(*off) } else { None });
+    let flip = case.plan.items.iter().find_map(|i| if let Item::Flip { off, bytes } = i { Some((*off, bytes.clone())) } else { None });
+    if let Some((off, bytes)) = &flip {
+        if bytes.as_slice() == b"," {
+            // syntax error through storage corruption: nothing runs, one located line, no trace
+            let sp = match w2.spaces.iter().find(|s| s.off == *off && s.stmt_level) {
+                Some(sp) => sp,
+                None => {
+                    out.skipped = Some("flip-not-on-a-statement-level-space".into());
+                    return out;
+                }
+            };
+            out.nontrivial = true;
+            out.probes.push("comma-flip".into());
+            out.cells.push("parse-error:comma".into());
+            let mut bad: Vec<String> = vec![];
+            if r.status != Status::Exit(103) {
+                bad.push(format!("exit status {} instead of 103", r.status.render()));
+            }
+            if !r.stdout.is_empty() {
+                bad.push("a script with a syntax error wrote to stdout".into());
+            }
+            match diag::parse(&r.stderr, &r.argv1) {
+                None => bad.push("stderr does not start with a line '<path as given>:<line>:<col>: ...'".into()),
+                Some(d) => {
+                    let (segs, msg) = diag::segments(&d.head);
+                    if segs.len() != 1 || segs[0].2.is_some() {
+                        bad.push("a syntax error carries exactly one location and no function".into());
+                    } else if (segs[0].0, segs[0].1) != (sp.line, sp.col) {
+                        bad.push(format!("syntax error reported at {}:{}, the unexpected token is at {}:{}", segs[0].0, segs[0].1, sp.line, sp.col));
+                    }
+                    if msg.trim().is_empty() {
+                        bad.push("empty message".into());
+                    }
+                    if let Some(w) = diag::internal_identifier(&d.head.msg) {
+                        bad.push(format!("internal identifier '{w}' in the message"));
+                    }
+                    if d.has_stacktrace_header || !d.trace.is_empty() {
+                        bad.push("stack trace printed for a syntax error".into());
+                    }
+                    if d.junk_before_trace_end {
+                        bad.push(format!("unexpected stderr lines inside the diagnostic: {:?}", d.junk));
+                    }
+                }
+            }
+            if !bad.is_empty() {
+                out.violation = Some(v(
+                    "a lexical/parse error is one located diagnostic, nothing on stdout, exit 103",
+                    "parse-error-diagnostic",
+                    format!("{}; plan=[{}]", bad.join("; "), case.plan.encode_items()),
+                    format!("exit:103 stdout=\"\" stderr='{}:{}:{}: <msg>'", String::from_utf8_lossy(&r.argv1), sp.line, sp.col),
+                    &r,
+                ));
+            }
+            return out;
+        }
+    }
+    let flip = flip.map(|(off, _)| off);
+    let mut fault_kind = "sink";
     let (fd, partial_ok, what): (FailDesc, bool, String) = if let Some(off) = flip {
-        match locate_name_fault(&w2, off) {
+        let located = match locate_op_fault(&w2, off) {
+            Some(x) => {
+                fault_kind = "op";
+                Some(x)
+            }
+            None => {
+                fault_kind = "name";
+                locate_name_fault(&w2, off)
+            }
+        };
+        match located {
             None => {
                 out.skipped = Some("flip-not-on-a-call-token".into());
                 return out;
@@ -439,12 +549,12 @@ fn check_w2(ctx: &Ctx, worker: usize, case: &Case) -> Outcome {
             Some(None) => {
                 // the corrupted call is never evaluated: the script must still succeed
                 out.nontrivial = true;
-                out.cells.push("w2:name-flip-dead-code".into());
+                out.cells.push(format!("w2:{fault_kind}-flip-dead-code"));
                 if r.stdout != w2.stdout || !r.stderr.is_empty() || r.status != Status::Exit(0) {
                     out.violation = Some(v(
                         "a successful script writes its output, nothing to stderr, and exits 0",
                         "w2-success-transcript",
-                        format!("corrupted name in code that is never evaluated changed the run; plan=[{}]", case.plan.encode_items()),
+                        format!("corrupted token in code that is never evaluated changed the run; plan=[{}]", case.plan.encode_items()),
                         format!("exit:0 stdout={:?} stderr=\"\"", oracle::show(&w2.stdout)),
                         &r,
                     ));
@@ -452,8 +562,8 @@ fn check_w2(ctx: &Ctx, worker: usize, case: &Case) -> Outcome {
                 return out;
             }
             Some(Some(fd)) => {
-                out.probes.push("name-flip".into());
-                (fd, false, format!("undefined-name at node {}", off))
+                out.probes.push(format!("{fault_kind}-flip"));
+                (fd, false, format!("{} at offset {}", if fault_kind == "op" { "operator type error" } else { "undefined-name" }, off))
             }
         }
     } else {
@@ -491,7 +601,7 @@ fn check_w2(ctx: &Ctx, worker: usize, case: &Case) -> Outcome {
     let prev_end = fd.stdout_before;
     let this_end = if partial_ok { w2.events.iter().find(|e| e.node == fd.node && e.end > prev_end).map(|e| e.end).unwrap_or(prev_end) } else { prev_end };
     let depth = ev.chain.len();
-    let kind = if partial_ok { "sink" } else { "name" };
+    let kind = fault_kind;
     out.cells.push(format!("{kind}:site={}:depth={}", w2.site[ev.node], depth_bucket(depth)));
     for (cn, _) in &ev.chain {
         out.cells.push(format!("{kind}:chain-site={}", w2.site[*cn]));
